@@ -45,7 +45,16 @@ UNITS = [
 """),
 ]
 
-KANI = []
+KANI = [
+    Harness("commands::forget::verif_kani::c09_matches_rule_table",
+            functions=["commands::forget::KeepOptions::matches (counter logic; keep_within*/ids/tags empty)"],
+            kind="complete", expect_stubs=8, timeout=1500,
+            note="all 9 counters Option<i32> symbolic, all 8 period predicates stubbed by symbolic booleans, has_next and presence of last symbolic; 9-iteration loop fully unwound with unwinding assertions"),
+]
+KANI_ASSUMPTIONS = [
+    "the eight period predicates are replaced by symbolic booleans (their contracts are the Verus units of this property)",
+    "keep_within*, keep_ids, keep_tags empty; snapshot fields concrete defaults (they are not read on this path)",
+]
 META = {
     "not_covered": [
         "KeepOptions::apply (sorting, peekable iteration, delete_unchanged), grouping",
